@@ -234,7 +234,7 @@ class GroundedPrecondition:
         :param state: the state to validate the precondition in.
         :return: whether the universal precondition is applicable in the given state.
         """
-        if not problem_objects:
+        if problem_objects is None:
             raise ValueError(
                 "The objects of the problem should be provided for universal preconditions."
             )
